@@ -4,8 +4,12 @@
    changes are part of its histories) the loaded signal reports exactly those symbols.
    Also pinned: the vector buffer - writing one per-bit record (VecBuffer::set_value) is writing one symbol of the
    vector (first declared element leftmost) and keeps the buffer correctly packed (ve_set_spec, ve_get_spec).
-   NOT proved: the dispatch schedule of the buffer (when a vector is handed to the store), the section grammar, the hierarchy; those
-   are decided by the correspondence run on signal sections and by the GHW file generator (MANIFEST level_note). *)
+   vec_update_spec / finish_time_step_spec: one per-bit record, and the end of a time step, hand the store only raw changes
+   that carry the packed form of the vector's symbols at that moment (the premise `op_ok` of storage_transparent for
+   raw changes) and keep every vector of the buffer packed.
+   NOT proved: that the sequence of dispatches reports each vector exactly once per time step with its final value (the
+   schedule: is_second_change / full_signal_has_changed / change list), the section grammar, the hierarchy; those are
+   decided by the correspondence run on signal sections and by the GHW file generator (MANIFEST level_note). *)
 From WV Require Import Model.Base Model.Bits Model.WaveMem Model.Ghw Proofs.BitsProofs Proofs.StoreProofs Proofs.RawProofs Proofs.VecProofs.
 Open Scope N_scope.
 
@@ -41,7 +45,26 @@ Check ve_get_spec :
   forall v syms bit, vinv v syms -> (bit < ve_bits v)%nat ->
   ve_get_value v bit = Ok (nth (ve_bits v - 1 - bit) syms 0).
 
+(* one per-bit record through VecBuffer *)
+Check vec_update_spec :
+  forall parse_f64 lz_compress cap vb e vec_id signal_index value sref st vb' e' S v,
+  vbinv vb S -> nth_error (vb_vecs vb) vec_id = Some v -> st = ve_states v ->
+  value < 2 ^ sbits (ve_states v) -> value <= 8 ->
+  vec_update vb e vec_id signal_index value sref st = Ok (vb', e') ->
+  exists ops syms bit,
+    nth_error S vec_id = Some syms /\ bit_of v signal_index = Ok bit /\ (bit < ve_bits v)%nat /\
+    run_ops parse_f64 lz_compress cap e ops = Ok e' /\ Forall packed_raw ops /\ (length ops <= 2)%nat /\
+    vbinv vb' (list_update S vec_id (list_update syms (ve_bits v - 1 - bit) value)).
+
+(* the end of a time step *)
+Check finish_time_step_spec :
+  forall parse_f64 lz_compress cap vb e vb' e' S, vbinv vb S ->
+  finish_time_step vb e = Ok (vb', e') ->
+  exists ops, run_ops parse_f64 lz_compress cap e ops = Ok e' /\ Forall packed_raw ops /\ vbinv vb' S.
+
 Print Assumptions ve_set_spec.
+Print Assumptions vec_update_spec.
+Print Assumptions finish_time_step_spec.
 Print Assumptions ve_get_spec.
 Print Assumptions compress_template_spec.
 Print Assumptions check_min_state_spec.
